@@ -782,8 +782,108 @@ def run_nested_apply(ctx, i, rng):
     ctx.check(tree_bytes_equal(outer.apply(ov, x), base), 'deterministic:nested_apply', lambda: dict(case=desc))
 
 
+def run_perturb_dtypes(ctx, i, rng):
+  """perturb() on values that are not float32 (mixed precision activations, integer counts, complex) and on pytrees, with the
+  'perturbations' collection NOT supplied but mutable (init, apply(mutable=['perturbations'] / True / DenyList)): the primary
+  output has the dtype and the values of the probe-free twin, and the fresh perturbation has the value's shape and dtype and is
+  zero. (Round h: the generated programs of the `case` stream are float32 only.)"""
+  import jax
+  import jax.numpy as jnp
+  import flax.linen as nn
+  from flax.core.scope import DenyList
+  dt = [jnp.bfloat16, jnp.float16, jnp.int32, jnp.float32, jnp.complex64, jnp.int8, jnp.uint8][i % 7]
+  shape = [(2, 3), (3,), (), (1, 0), (2, 1, 2)][(i // 7) % 5]
+  nested = (i // 35) % 2 == 1
+  as_tree = (i // 70) % 2 == 1
+  negzero = (i // 140) % 2 == 1 and jnp.issubdtype(dt, jnp.floating)
+  desc = dict(dtype=jnp.dtype(dt).name, shape=list(shape), nested=nested, tree=as_tree, negzero=negzero)
+  with ctx.case('perturb_dtypes', i, desc, nontrivial=True):
+    class Leaf(nn.Module):
+      probe: bool
+
+      @nn.compact
+      def __call__(self, x):
+        w = self.param('w', nn.initializers.ones, ())
+        if jnp.issubdtype(dt, jnp.integer):
+          h = (x * 3).astype(dt)
+        else:
+          h = (x * w).astype(dt)
+        if negzero:
+          h = h * jnp.asarray(-0.0, dt)
+        if as_tree:
+          h = {'a': h, 'b': (h, h.astype(jnp.float32))}
+        if self.probe:
+          h = self.perturb('h', h)
+        return h
+
+    class Top(nn.Module):
+      probe: bool
+
+      @nn.compact
+      def __call__(self, x):
+        y = Leaf(self.probe, name='leaf')(x)
+        if self.probe and not as_tree:
+          y = self.perturb('top', y)
+        return y
+
+    cls = Top if nested else Leaf
+    x = jnp.asarray(np.random.default_rng(rng.randrange(1 << 30)).integers(1, 5, size=shape).astype(np.float32))
+    key = jax.random.key(rng.randrange(1 << 30))
+    y_ref, v_ref = cls(False).init_with_output(key, x)
+    y_init, v_init = cls(True).init_with_output(key, x)
+    ctx.op('init_with_output(perturb, non-float32)')
+
+    def same(a, b):
+      la, ta = jax.tree_util.tree_flatten(a)
+      lb, tb = jax.tree_util.tree_flatten(b)
+      if ta != tb:
+        return 'structure'
+      for u, w in zip(la, lb):
+        u, w = np.asarray(u), np.asarray(w)
+        if u.dtype != w.dtype or u.shape != w.shape:
+          return 'dtype'
+        if not np.array_equal(u, w):
+          return 'value'
+        if u.tobytes() != w.tobytes():
+          return 'negative_zero'
+      return None
+
+    def verdict(got, how, bits=True):
+      r = same(got, y_ref)
+      if r == 'negative_zero' and not bits:
+        r = None
+      ctx.event('perturb_output_compared')
+      ctx.check(r is None, 'observation_inert:perturb:%s' % (r or 'ok'), lambda: dict(case=desc, how=how))
+
+    verdict(y_init, 'init')
+    ctx.check(_same_params(v_ref, v_init), 'observation_inert:perturb:params', lambda: dict(case=desc))
+    # the fresh perturbations: zero, shape and dtype of the perturbed value
+    pert = v_init.get('perturbations', {})
+    if nested:
+      want = {'leaf': {'h': y_ref}} if as_tree else {'leaf': {'h': y_ref}, 'top': y_ref}
+    else:
+      want = {'h': y_ref}
+    lw, tw = jax.tree_util.tree_flatten(want)
+    lp, tp = jax.tree_util.tree_flatten(pert)
+    okp = tw == tp and all(np.asarray(a).dtype == np.asarray(b).dtype and np.shape(a) == np.shape(b) and not np.any(np.asarray(a))
+                           for a, b in zip(lp, lw))
+    ctx.check(okp, 'perturb:fresh_perturbation_not_zero_like_value',
+              lambda: dict(case=desc, got=[(str(np.asarray(a).dtype), list(np.shape(a))) for a in lp]))
+    params = {'params': v_ref['params']}
+    verdict(cls(True).apply(params, x), 'apply(mutable=False)')
+    for mname, mut in (('list', ['perturbations']), ('True', True), ('denylist', DenyList(['params'])),
+                       ('other', ['intermediates'])):
+      out = cls(True).apply(params, x, mutable=mut)
+      verdict(out[0], 'apply(mutable=%s)' % mname)
+    # supplied zero perturbations (the documented gradient recipe) leave the output alone too
+    out = cls(True).apply({**params, 'perturbations': pert}, x)
+    verdict(out, 'apply(supplied zeros)', bits=False)   # with a supplied collection x + 0.0 is what was asked for
+
+
 def run(ctx):
   log = PutLog(ctx)
+  for i in ctx.indices(280, 'perturb_dtypes'):
+    run_perturb_dtypes(ctx, i, ctx.rng('perturb_dtypes', i))
   for i in ctx.indices(30, 'nested_apply'):
     run_nested_apply(ctx, i, ctx.rng('nested_apply', i))
   for i in ctx.indices(90, 'capture_denylist'):
